@@ -203,9 +203,41 @@ def check_identity(idx, typer, rule, f, call: ast.Call) -> None:
 	xcall = next((n for n in nodes(fx, ast.Call) if (n.lineno, n.col_offset) == (call.lineno, call.col_offset)), call)
 	ident_expr = deref(fx, next((k.value for k in xcall.keywords if k.arg == 'identity'), ident_expr))
 	key_expr = xcall.args[0] if xcall.args else key_expr
-	if not isinstance(ident_expr, ast.Dict):
-		rule.skip(f'{tag}:identity', where, f'identity is not a dict literal: {unparse(ident_expr)}')
+	# the identity may be assembled from a helper that returns a dict literal and from `**` spreads: flattened in evaluation order. A key written twice
+	# keeps only its LAST value — the earlier input silently drops out of the cache key
+	from vlib.match import inline_simple_calls
+
+	def flat(e: ast.AST, depth: int = 0) -> list[tuple[ast.AST | None, ast.AST]] | None:
+		if isinstance(e, ast.Name) and depth < 3:
+			d_ = deref(fx, e)
+			return flat(d_, depth + 1) if d_ is not e else None
+		if isinstance(e, ast.Call) and depth < 3:
+			i_ = inline_simple_calls(f, e)
+			return flat(i_, depth + 1) if not isinstance(i_, ast.Call) or unparse(i_) != unparse(e) else None
+		if isinstance(e, ast.Dict):
+			out_: list = []
+			for k_, v_ in zip(e.keys, e.values):
+				if k_ is None:
+					sub = flat(v_, depth + 1)
+					if sub is None:
+						return None
+					out_.extend(sub)
+				else:
+					out_.append((k_, v_))
+			return out_
+		return None
+	entries_ = flat(ident_expr)
+	if entries_ is None:
+		rule.skip(f'{tag}:identity', where, f'identity is not a dict literal (nor assembled from one): {unparse(ident_expr)}')
 		return
+	last_: dict[str, int] = {}
+	for i_, (k_, v_) in enumerate(entries_):
+		last_[unparse(k_)] = i_
+	lost = [(k_, v_) for i_, (k_, v_) in enumerate(entries_) if last_[unparse(k_)] != i_]
+	for k_, v_ in lost:
+		rule.violate(f'{tag}:identity-key-collision:{unparse(k_)}', where, f'the identity is assembled with the key {unparse(k_)} twice: `{unparse(v_)[:70]}` is overwritten by the later entry and no longer takes part in the cache file name — with the grammar stamp lost this way, unedited modules are served the syntax trees of the OLD grammar after a grammar edit (warm != cold)', unparse(ident_expr)[:120])
+	entries_ = [(k_, v_) for i_, (k_, v_) in enumerate(entries_) if last_[unparse(k_)] == i_]
+	ident_expr = ast.copy_location(ast.Dict(keys=[k_ for k_, _ in entries_], values=[v_ for _, v_ in entries_]), ident_expr)
 	ident_src = [unparse(v) for v in ident_expr.values]
 	# a stamp must enter the identity losslessly: str(<loader>.mtime(p)) / <loader>.hash(p); rounding or truncation lets an edit keep the old cache file name
 	for k_, v_ in zip(ident_expr.keys, ident_expr.values):
@@ -398,7 +430,7 @@ def rule_content_fingerprint(rep: Report, idx) -> None:
 	# the store hash() returns from
 	rets = [n.value for n in walk_no_nested(hsh.node) if isinstance(n, ast.Return) and n.value is not None]
 	stores = {unparse(x.value) for x in rets if isinstance(x, ast.Subscript)}
-	if len(stores) != 1 or len(rets) != 1:
+	if len(stores) != 1 or not all(isinstance(x, ast.Subscript) for x in rets):
 		r.skip('hash', hsh.where, 'FileLoader.hash no longer returns one entry of a memo table')
 		return
 	store = stores.pop()
